@@ -985,6 +985,19 @@ class Interp:
                     ok = False
                     break
                 a = args[i - 1]
+                if cpath == b.path:
+                    # self call site (a forwarding wrapper seen through trait dispatch): forwarding the own parameter
+                    # unchanged adds no new values
+                    src = a
+                    hops = 0
+                    while src[0] in ("copy", "move") and not src[1][1] and hops < 4:
+                        sd = b.single_def(src[1][0])
+                        if src[1][0] == i or not sd or sd[2][0] != "use":
+                            break
+                        src = sd[2][1]
+                        hops += 1
+                    if src[0] in ("copy", "move") and src[1] == [i, []]:
+                        continue
                 if a[0] == "const" and "v" in a[1] and is_int:
                     lo, hi = min(lo, a[1]["v"]), max(hi, a[1]["v"])
                     continue
@@ -1007,8 +1020,11 @@ class Interp:
                         n_none += 1
                         continue  # None: payload never read
                     if var != 1:
-                        ok = False
-                        break
+                        # unknown variant: fine if the payload is bounded whenever it is Some (forwarded parameter)
+                        if (v + "@1.0") not in cst.iv:
+                            ok = False
+                            break
+                        n_none += 1
                     iv = cit.iv_of(v + "@1.0", cst)
                 lo, hi = min(lo, iv[0]), max(hi, iv[1])
             if ok and lo <= hi and (lo != -INF or hi != INF):
